@@ -575,9 +575,16 @@ def _r2_nan(ctx):
     mname = mask.targets[0].id
     rets = [s_ for s_ in body if isinstance(s_, ast.Return)]
     if len(rets) != 1 or not isinstance(rets[0].value, ast.Tuple) or len(rets[0].value.elts) != 2 or \
-            not all(isinstance(e_, ast.Name) for e_ in rets[0].value.elts):
+            not isinstance(rets[0].value.elts[0], ast.Name):
         raise AnalysisError("find_turns: return (index, values) not found")
-    idx_name, val_name = (e_.id for e_ in rets[0].value.elts)
+    idx_name = rets[0].value.elts[0].id
+    v_elt = rets[0].value.elts[1]
+    if isinstance(v_elt, ast.Name):
+        val_name = v_elt.id
+    elif isinstance(v_elt, ast.Subscript) and isinstance(v_elt.slice, ast.Name) and v_elt.slice.id == idx_name:
+        val_name = None                       # the values are read in the return statement itself
+    else:
+        raise AnalysisError("find_turns: return (index, values) not found")
 
     def is_not_mask(e, names, env=None):
         if isinstance(e, ast.Name) and env and isinstance(env.get(e.id), ast.AST) and not isinstance(env[e.id], ast.Name):
@@ -656,6 +663,8 @@ def _r2_nan(ctx):
                     walk(list(arm) + list(rest), dict(env), tk, list(events), k)
                 return
             if isinstance(st, ast.Return):
+                if val_name is None:
+                    events = events + [("values", st)]
                 paths.append(events + [("return", st)])
                 return
             if isinstance(st, ast.Raise):
